@@ -115,8 +115,8 @@ def isoformat(dt: datetime.date | datetime.time | datetime.timedelta) -> str:
     return _duration_isoformat(dt)
 
 
-@compat.lru_cache(maxsize=100_000)
 def _duration_isoformat(dt: datetime.timedelta) -> str:
+    # Not memoized either: a `pendulum.Duration` of one year equals a `timedelta` of 365 days.
     if dt < datetime.timedelta(0):
         # A negative duration is written as the negated positive one (ISO 8601-2 sign prefix).
         return f"-{_duration_isoformat(-dt)}"
